@@ -348,9 +348,12 @@ Definition is_json_type (ct : str) : bool := contains (lower_ascii ct) [106;115;
    whole body must be exactly one well-formed JSON value (RFC 8259, well-formed UTF-8), on every
    route; other types (text/plain, ...) are not interpreted *)
 Definition resp_inert (ctype body benign : str) : bool :=
-  if is_markup_type ctype then page_inert body benign
-  else if is_json_type ctype then match body with [] => true | _ => json_doc_ok body end
-  else true.
+  match body with
+  | [] => true      (* nothing was served: nothing can have been injected *)
+  | _ => if is_markup_type ctype then page_inert body benign
+         else if is_json_type ctype then json_doc_ok body
+         else true
+  end.
 
 (* the bytes written for one placeholder: no markup delimiter, quote or NUL, every ampersand
    starts a reference the escaper emits, and decoding the references gives back the payload *)
